@@ -14,8 +14,8 @@ EXTENDS Pyxis, Props, Json
 
 CONSTANTS MaxP, Recvs, Rets, Addrs, Seconds, Bad, Singles, EvalKinds, Ptrs
 
-QAddrs == {None, 0, 4096, 2147418112}
-TAddrs == {None, 0, 1, 4096, 65535, 2147418112}
+QAddrs == {None, 0, 327680, 2147418112}
+TAddrs == {None, 0, 1, 327680, 65535, 2147418112}
 
 PTypes == <<TNm("u32"), TCPtr(TNm("u8")), TNm("i64"), TMPtr(TNm("T")), TNm("u8"), TNm("f32")>>
 PNames == <<"a", "b", "c", "d", "e", "g">>
@@ -40,11 +40,11 @@ MkInput(ptr, recv, n, bad, ret, addr, second, single, ek, eaddr) ==
       E == [EnumDef("E", "pub", TNm("u32"), <<Variant("A", NumNone, FALSE), Variant("B", NumNone, FALSE)>>)
               EXCEPT !.singleton = IF single = "enum" THEN 131072 ELSE None, !.copyable = TRUE]
       f1 == F("f", recv, n, bad, ret, addr)
-      f2 == CASE second = "distinct"  -> <<F("h", "mut", 1, 0, "none", 8192)>>
-              [] second = "dup"       -> <<F("f", "mut", 1, 0, "none", 8192)>>
-              [] second = "inherited" -> <<F("tick", "mut", 1, 0, "none", 8192)>>
+      f2 == CASE second = "distinct"  -> <<F("h", "mut", 1, 0, "none", 393216)>>
+              [] second = "dup"       -> <<F("f", "mut", 1, 0, "none", 393216)>>
+              [] second = "inherited" -> <<F("tick", "mut", 1, 0, "none", 393216)>>
               [] OTHER -> <<>>
-      impls == (IF useBase THEN <<Impl("B", <<F("tick", "mut", 1, 0, "none", 12288)>>)>> ELSE <<>>)
+      impls == (IF useBase THEN <<Impl("B", <<F("tick", "mut", 1, 0, "none", 458752)>>)>> ELSE <<>>)
                \o <<Impl("T", <<f1>> \o f2)>>
       evals == IF ek = "none" THEN <<>>
                ELSE IF ek = "two" THEN <<ExtVal("gv", "pub", TNm("u32"), 4096), ExtVal("hv", "pub", TMPtr(TNm("u16")), eaddr)>>
@@ -61,7 +61,7 @@ MCInit ==
         /\ bad <= n
         /\ (ek = "none" => eaddr = None)
         (* keep the product small: vary the accessor side only with the simplest function *)
-        /\ ((single # "none" \/ ek # "none") => (n = 0 /\ ret = "none" /\ second = "none" /\ recv = "const" /\ addr = 4096))
+        /\ ((single # "none" \/ ek # "none") => (n = 0 /\ ret = "none" /\ second = "none" /\ recv = "const" /\ addr = 327680))
         /\ input = MkInput(ptr, recv, n, bad, ret, addr, second, single, ek, eaddr)
   /\ InitRest
 
